@@ -14,7 +14,7 @@ from moPepGen.circ.CircRNA import CircRNAModel
 from moPepGen.seqvar import io as gvf_io
 from moPepGen.seqvar.GVFIndex import GVFPointer
 from moPepGen.seqvar.VariantRecord import VariantRecord
-from mpgverif.hlib import OK, SKIP, cond, patched, under_shim
+from mpgverif.hlib import OK, SKIP, cond, patched, under_shim, concretize
 
 USE_SHIM = True
 USE_TOKENS = True
@@ -660,3 +660,52 @@ def c13_idx_noncontiguous(k0: int, k1: int, k2: int, kb: int, la: List[int], lb:
     post: _ >= 0
     """
     return _multi_file_idx([k0, k1, k2], [kb], la, lb, swap)
+
+
+# --------------------------------------------------------------------------
+# C06: records of several GVF files are merged per transcript through set(): two records that denote different events
+# must both survive (whatever the file order), identical ones collapse to one
+# --------------------------------------------------------------------------
+# attributes that, by the GVF documentation, change which event an <INS>/<DEL>/<SUB> record denotes
+_ID_ATTRS = ['DONOR_TRANSCRIPT_ID', 'START', 'END', 'DONOR_START', 'DONOR_END']
+
+
+def _record_identity(k, swap):
+    from moPepGen.SeqFeature import FeatureLocation
+    from moPepGen.seqvar.VariantRecord import VariantRecord
+
+    def mk(delta):
+        attrs = {'TRANSCRIPT_ID': 'T1', 'GENE_ID': 'G1'}
+        for i, name in enumerate(_ID_ATTRS):
+            attrs[name] = ('T9' if delta == 5 + i else 'T8') if i == 0 else 100 + 10 * i + (1 if delta == 5 + i else 0)
+        start = 30 + (1 if delta == 0 else 0)
+        end = start + 1 + (1 if delta == 1 else 0)
+        ref = ('C' if delta == 2 else 'A') * (end - start)
+        alt = '<SUB>' if delta == 3 else '<INS>'
+        typ = 'Substitution' if delta == 4 else 'Insertion'
+        return VariantRecord(location=FeatureLocation(seqname='G1', start=start, end=end), ref=ref, alt=alt, _type=typ,
+                             _id='X', attrs=attrs)
+
+    r1, r2 = mk(-1), mk(k)
+    items = [r2, r1] if swap else [r1, r2]
+    from crosshair.tracers import NoTracing
+    with NoTracing():
+        # all fields are concrete here; CrossHair's own hash() patch does not reproduce CPython's tuple hash
+        n = len(set(items))
+    if k == 10:
+        return OK if n == 1 else -1
+    return OK if n == 2 else -2
+
+
+@cond('C06', bounds='two alternative-splicing records that are identical except for ONE of the 10 fields that define the event '
+      '(start, end, REF, ALT, type, donor transcript, START/END, DONOR_START/DONOR_END) or not at all, in either order', encodes=['moPepGen.seqvar.VariantRecord.VariantRecord.__hash__ / __eq__ (as used by '
+      'VariantRecordPoolOnDisk.__getitem__: records = set(records))'],
+      codes={-1: 'two identical records are both kept (duplicate events across GVF files)',
+             -2: 'two records that differ in an identifying field collapse into one when merged through set(): which '
+                 'event survives would depend on the order of the GVF files'}, shim=True, timeout=200)
+def c06_record_identity(k: int, swap: bool) -> int:
+    """
+    pre: 0 <= k <= 10
+    post: _ >= 0
+    """
+    return _record_identity(concretize(k, 0, 10), swap)
